@@ -447,7 +447,8 @@ pub fn generate(tier: &str, seed: u64) -> Vec<Rec> {
         if tier != "thorough" && li >= 7 && false { continue; }
         for be in [1i128, 3] {
             let be = if tier == "thorough" || li % 2 == 0 { be } else { be + 1 };
-            let nk = size * b - rng.range(0, b as i64 - 1) as usize;
+            // noise on the last limb or on the one before it (k not a multiple of the radix in general)
+            let nk = (size - (li % 2).min(size - 1)) * b - rng.range(0, b as i64 - 1) as usize;
             let sigma = rng.pick(&[3200i128, 3200, 8000, 100000]);
             let per_ct = match layout { 1 => 1, 2 => (size - 1) * n, 3 => (size - 1) * (rank + 1) * n, _ => n };
             let cts = (16384 + per_ct - 1) / per_ct;
